@@ -228,6 +228,14 @@ def recvNext (t : T) : RecvIn → RecvOut
       | .ok d => if isRtcp (b :: rest) then .ok [.deliverRtcp d] else .ok [.deliverRtp d]
     else .ok []
 
+/-- The three classes `_recv_next` demultiplexes a datagram into by its first byte (RFC 7983 §7). -/
+inductive Demux | dtls | srtp | drop
+  deriving DecidableEq, Repr
+
+/-- The two comparisons of `_recv_next` (`first_byte > 19 and first_byte < 64`, `first_byte > 127 and first_byte < 192`). -/
+def demuxClass (b : Nat) : Demux :=
+  if 19 < b ∧ b < 64 then .dtls else if 127 < b ∧ b < 192 then .srtp else .drop
+
 inductive Ev
   | start (fps : List Fingerprint) (iceControlling : Bool)
   | hsWant (d : RecvIn)          -- do_handshake raised WantReadError; `_write_ssl`; `_recv_next`
